@@ -105,6 +105,42 @@ def serialize (crc32 : Bytes → Nat) (m : Message) : Except SerErr Bytes :=
         let buf := buf ++ (hb ++ payloadBytes m)
         .ok (buf ++ be32 (crc32 buf))
 
+/-! ## the same code on a target with another pointer width
+
+`usize` enters `serialize` only through the three `checked_add`s. `serializeW limit` is `serialize` with
+`usize::MAX + 1 = limit` (`2^32` on a 32-bit target, `2^64` on a 64-bit one); `serialize` is the instance
+`limit = usizeLimit` (`serializeW_usizeLimit` in `S3V/Thm/EvStreamWidth.lean`). -/
+
+def checkedAddW (limit a b : Nat) : Option Nat := if a + b < limit then some (a + b) else none
+
+def headerLenStepW (limit acc : Nat) (h : Header) : Option Nat :=
+  (checkedAddW limit acc 4).bind fun a => (checkedAddW limit a h.name.length).bind fun a =>
+    checkedAddW limit a h.value.length
+
+def headersLenFromW (limit : Nat) : Nat → List Header → Option Nat
+  | acc, [] => some acc
+  | acc, h :: hs => (headerLenStepW limit acc h).bind fun a => headersLenFromW limit a hs
+
+def serializeW (limit : Nat) (crc32 : Bytes → Nat) (m : Message) : Except SerErr Bytes :=
+  let hl := headersLenFromW limit 0 m.headers
+  let payloadLen := (payloadBytes m).length
+  let totalLen := (hl.bind fun a => checkedAddW limit a 16).bind fun a => checkedAddW limit a payloadLen
+  match totalLen with
+  | none => .error .lengthOverflow
+  | some total =>
+    if 4294967296 ≤ total then .error .intOverflow else
+    match hl with
+    | none => .error .lengthOverflow
+    | some hlen =>
+      if 4294967296 ≤ hlen then .error .intOverflow else
+      let prelude := be32 total ++ be32 hlen
+      let buf := prelude ++ be32 (crc32 prelude)
+      match putHeaders m.headers with
+      | .error e => .error e
+      | .ok hb =>
+        let buf := buf ++ (hb ++ payloadBytes m)
+        .ok (buf ++ be32 (crc32 buf))
+
 /-! ## text constants -/
 
 /-- `:event-type` -/
